@@ -240,6 +240,7 @@ pub fn run_batch(id: &str, tier: Tier, seed: u64, runs: u64, jobs: usize, budget
         ended: bool,
         exited: bool,
         next_start: u64,
+        killed_for_hang: bool,
     }
     let stride = jobs as u64;
     let mut ws: Vec<W> = (0..jobs)
@@ -249,6 +250,7 @@ pub fn run_batch(id: &str, tier: Tier, seed: u64, runs: u64, jobs: usize, budget
             ended: false,
             exited: false,
             next_start: w as u64,
+            killed_for_hang: false,
         })
         .collect();
     let mut lines = Vec::new();
@@ -272,10 +274,15 @@ pub fn run_batch(id: &str, tier: Tier, seed: u64, runs: u64, jobs: usize, budget
                 if !ws[w].ended {
                     // died mid-run: attribute to the announced index, restart after it
                     let (i, s) = ws[w].current.map(|c| (c.0, c.1)).unwrap_or((ws[w].next_start, 0));
-                    let how = match status {
-                        Some(st) => format!("worker exited with {st}"),
-                        None => "worker vanished".to_string(),
+                    let how = if ws[w].killed_for_hang {
+                        format!("HANG: no result within {hang_s} s of wall time, worker killed by the supervisor")
+                    } else {
+                        match status {
+                            Some(st) => format!("worker exited with {st}"),
+                            None => "worker vanished".to_string(),
+                        }
                     };
+                    ws[w].killed_for_hang = false;
                     deaths.push((i, s, how));
                     let next = i + stride;
                     let remaining = budget_s.saturating_sub(t0.elapsed().as_secs());
@@ -292,6 +299,7 @@ pub fn run_batch(id: &str, tier: Tier, seed: u64, runs: u64, jobs: usize, budget
                 for w in ws.iter_mut() {
                     if let Some((_, _, since)) = w.current {
                         if since.elapsed() > Duration::from_secs(hang_s) && !w.exited {
+                            w.killed_for_hang = true;
                             let _ = w.child.kill();
                         }
                     }
@@ -411,7 +419,7 @@ pub fn check(id: &str, tier: Tier) -> i32 {
     let jobs: usize = std::env::var("VERIF_JOBS").ok().and_then(|s| s.parse().ok()).unwrap_or(16);
     let runs: u64 = std::env::var("VERIF_RUNS").ok().and_then(|s| s.parse().ok()).unwrap_or(p.runs(tier));
     let budget = p.wall_budget_s(tier);
-    let batch = run_batch(id, tier, seed, runs, jobs, budget, 600);
+    let batch = run_batch(id, tier, seed, runs, jobs, budget, 1500);
 
     let known = known_findings();
     let is_known = |v: &Violation| {
@@ -428,7 +436,7 @@ pub fn check(id: &str, tier: Tier) -> i32 {
     // worker deaths are violations of the properties that promise survival, harness errors elsewhere
     let mut death_violations: Vec<(u64, u64, Violation)> = Vec::new();
     for (i, s, how) in &batch.deaths {
-        if id == "C14" || id == "C15" {
+        if (id == "C14" || id == "C15") && !how.starts_with("HANG") {
             death_violations.push((
                 *i,
                 *s,
